@@ -188,3 +188,38 @@ def routing(cx):
         ok = m is not None and (c == ("field", m, "Message.context") or (c[0] == "call" and "context" in c[1] and m in c[2]))
         cx.check(ok, tkey(cx, t, "MsgHeartbeatResponse"), "a heartbeat response echoes the heartbeat's context to its sender (found %s)" % t.show_field("context"), t.site)
     cx.check(n >= 1, "floor:hbresp", "a MsgHeartbeatResponse template exists")
+
+
+@obligation("READ.single_voter_fastpath", ["C08"], floor=2, kind="guard + return shape",
+            why="answering a read without a heartbeat quorum round is sound only if the leader is the sole voter of every half of the configuration")
+def single_voter_fastpath(cx):
+    # immediate answers in the MsgReadIndex arm (not preceded by a quorum-checked advance)
+    n = 0
+    for c in cx.prog.call_sites_of("Raft::handle_ready_read_index"):
+        if not _in_msg_arm(cx, c, {"MsgReadIndex"}, depth=0):
+            continue
+        n += 1
+        def single(l):
+            return l[0] == "is" and l[2] is True and l[1][0] == "call" and l[1][1].endswith("is_singleton")
+        def lease(l):
+            return l[0] == "in" and is_f(l[1], "ReadOnly.option") and l[2] == frozenset(["LeaseBased"])
+        require(cx, c, cx.site_key(c, "immediate"), "a read is answered immediately only for a singleton configuration (or under the lease-based option)", lambda l: single(l) or lease(l), kill=False)
+    cx.check(n >= 1, "floor", "the immediate-answer sites of the MsgReadIndex arm were found")
+    f = cx.fn("joint::Configuration::is_singleton")
+    rets = cx.pg(f).returns()
+    ok = bool(rets)
+    saw_true = False
+    for lits, v, _ in rets:
+        empty_out = [l for l in lits if l[0] == "is" and l[1][0] == "call" and l[1][1].endswith("is_empty") and contains(fld("Configuration.outgoing"), l[1])]
+        if v == ("bool", False):
+            ok = ok and bool(empty_out) and empty_out[0][2] is False
+        else:
+            saw_true = True
+            one = (v[0] == "bin" and v[1] == "Eq" and ("int", 1) in v[2:] and any(contains(fld("Configuration.incoming"), x) for x in v[2:])) or \
+                any(l[0] == "in" and l[2] == frozenset([1]) and contains(fld("Configuration.incoming"), l[1]) for l in lits)
+            ok = ok and bool(empty_out) and empty_out[0][2] is True and one
+    cx.check(ok and saw_true, "is_singleton", "is_singleton() = outgoing.is_empty() && incoming.len() == 1", shape=[(show(v), [show_lit(l) for l in lits]) for lits, v, _ in rets])
+    pf = cx.fn("ProgressTracker::is_singleton")
+    rets = cx.pg(pf).returns()
+    ok = len(rets) == 1 and rets[0][1][0] == "call" and rets[0][1][1].endswith("joint::Configuration::is_singleton") and contains(fld("Configuration.voters"), rets[0][1])
+    cx.check(ok, "tracker", "the tracker asks its current joint configuration")
